@@ -1,0 +1,18 @@
+// Copyright (c) HashiCorp, Inc.
+// SPDX-License-Identifier: MPL-2.0
+
+//go:build verif
+
+package plugin
+
+import "github.com/hashicorp/go-plugin/internal/verifhook"
+
+// VerifSetHook installs the handler that receives the verification hook
+// points. Only present with the "verif" build tag.
+func VerifSetHook(h func(ev string, obj interface{}, a, b int64)) {
+	if h == nil {
+		verifhook.Set(nil)
+		return
+	}
+	verifhook.Set(verifhook.Handler(h))
+}
